@@ -951,6 +951,9 @@ func (lcp *LCPStateMachine) timeout() {
 			lcp.setState(LCPStateReqSent)
 		}
 	} else {
+		// Giving up: no restart timer may stay armed (this callback can belong to an
+		// instance that was already replaced by a newer one).
+		lcp.stopTimer()
 		// Timeout with restart counter expired
 		switch lcp.state {
 		case LCPStateClosing:
